@@ -11,7 +11,22 @@ import common, pool, specs, gens, c02, ftdiff
 
 def classify(case, rec):
     import gens7
-    return set(case["tags"]) & set(gens7.KNOWN_BAD_TAGS)
+    return set(case["tags"]) & (set(gens7.KNOWN_BAD_TAGS) | {"merger_swizzle_before_multi_rank_lookup"})
+
+
+def witnesses(ctx):
+    """known findings that carry an executable witness are replayed against the real compiler on every run"""
+    for f in ctx.findings:
+        w = f.get("witness_case")
+        if not w:
+            continue
+        rec = pool.make_record("known:" + f["id"], 0, w, gens.to_yaml_dict(w), "metrics", 2, random.Random(1), "", reference=True)
+        if not rec["ok"]:
+            ctx.notes.append("known finding %s: witness no longer compiles" % f["id"]); continue
+        before = len(ctx.known_hits)
+        c02.check_records(ctx, [rec], classify=classify, need_reference=True)
+        if len(ctx.known_hits) == before:
+            ctx.notes.append("known finding %s: witness no longer fails - the defect may have been repaired; entry must be revisited" % f["id"])
 
 
 def run(ctx):
@@ -37,6 +52,7 @@ def run(ctx):
     c02.check_records(ctx, keep, classify=classify, need_reference=True)
     # the loops of the METRICS-mode program against the Lean model compiler (C01/C02 theorems): observers read through
     c02.check_model(ctx, [r for r in keep if r["ok"] and not classify(r["case"], r)], only_model_class=True)
+    witnesses(ctx)
     for f in ctx.findings:
         if f["id"] not in [h for h, _ in ctx.known_hits]:
             ctx.notes.append("known finding %s not encountered in this run's sample" % f["id"])
